@@ -413,8 +413,8 @@ def write_with(fmt, tree, **opts):
 
 # ----------------------------------------------------------------------------------------------- harness
 class Ctx(object):
-    def __init__(self, pid, res, only=None):
-        self.pid, self.res, self.only = pid, res, only
+    def __init__(self, pid, res, only=None, part=None):
+        self.pid, self.res, self.only, self.part = pid, res, only, part
 
     def case(self, name, what, fn):
         """fn() returns '' / None when fine, a description otherwise; exceptions of the library are findings."""
@@ -652,6 +652,11 @@ def _extract_case(spec):
 
 
 def p_c06(cx):
+    if cx.part == 'deep':
+        # extraction is cubic in the depth: about a minute for this one probe, in a chunk of its own
+        spec = deep_chain(540, True)
+        cx.case(spec.name, 'extract: counts per label, lexicon, ranks', _extract_case(spec))
+        return
     for spec in (long_gap(), long_cont(), wide(), many_cons(), deep_chain(200, False)):
         cx.case(spec.name, 'extract: counts per label, lexicon, ranks', _extract_case(spec))
 
@@ -727,6 +732,36 @@ def p_c09(cx):
     for spec in (long_cont(), wide()):
         for fmt in ('rcg', 'pmcfg'):
             cx.case(spec.name, 'grammar files ' + fmt, fn(spec, fmt))
+
+    # words that no bracketed source can carry reach the lexicon through the library (export / TIGER-XML treebanks
+    # whose brackets were not replaced): the lexicon file must list them with their tags
+    def bracket_words(fmt):
+        def run():
+            from trees import grammaroutput
+            sp = Spec('bracket-words')
+            r = sp.node('VROOT')
+            S = sp.node('S', r)
+            for w, pos in (('(', '$('), ('w', 'x'), (':-)', 'x'), (')', '$('), ('w', 'y'), ('(', '$(')):
+                sp.tok(S, word=w, pos=pos)
+            g, lex = {}, {}
+            grammar.extract(ibuild(sp), g, lex)
+            dest = os.path.join(scratch(), 'large-bw')
+            getattr(grammaroutput, fmt)(g, lex, dest, 'utf-8')
+            got = {}
+            with open(dest + '.lex', encoding='utf-8') as f:
+                for line in f:
+                    if line.strip():
+                        word, _, rest = line.rstrip('\n').partition('\t')
+                        fields = rest.split()
+                        got[word] = dict(zip(fields[0::2], (int(x) for x in fields[1::2])))
+            for fn_ in os.listdir(scratch()):
+                if fn_.startswith('large-bw'):
+                    os.unlink(os.path.join(scratch(), fn_))
+            exp = {'(': {'$(': 2}, ')': {'$(': 1}, ':-)': {'x': 1}, 'w': {'x': 1, 'y': 1}}
+            return '' if got == exp else 'lexicon file decodes to %r, expected %r' % (got, exp)
+        return run
+    for fmt in ('rcg', 'pmcfg'):
+        cx.case('bracket-words', 'lexicon file of the %s writer' % fmt, bracket_words(fmt))
 
 
 def _transitions_case(spec, system):
@@ -1114,6 +1149,8 @@ PROBES = {'C01': p_c01, 'C02': p_c02, 'C03': p_c03, 'C04': p_c04, 'C05': p_c05, 
 
 
 def plan_chunks(pid, tier):
+    if pid == 'C06':
+        return [{'kind': 'large'}, {'kind': 'large', 'part': 'deep'}]
     return [{'kind': 'large'}] if pid in PROBES else []
 
 
@@ -1126,10 +1163,12 @@ def assumption():
 def run_chunk(pid, chunk, res=None, only=None):
     res = res or Result()
     sys.setrecursionlimit(1000)
-    PROBES[pid](Ctx(pid, res, only))
+    PROBES[pid](Ctx(pid, res, only, chunk.get('part')))
     return res
 
 
 def replay(pid, case):
-    res = run_chunk(pid, {'kind': 'large'}, only=case['large'])
-    return res.violations
+    vs = []
+    for ch in plan_chunks(pid, 'quick'):
+        vs += run_chunk(pid, ch, only=case['large']).violations
+    return vs
